@@ -1,7 +1,25 @@
-//! C14 — not implemented yet (stub).
-use crate::engine::Args;
+//! C14 — sozu respects every HTTP/2 peer limit and keeps transfers moving (DESIGN §4 C14).
+//! The scenario and its ledger live in `props/h2flow.rs` / `lab/h2.rs`.
 
-pub fn run(_args: &Args) -> i32 {
-    println!("INCONCLUSIVE: C14 has no check yet");
-    2
+use std::time::Duration;
+
+use crate::engine::{self, Args, Evidence};
+
+const SUB: &str = "flow";
+
+pub fn run(args: &Args) -> i32 {
+    if args.shard.is_some() {
+        let st = super::h2flow::child(args, "C14", SUB, args.cases(500, 10_000), true);
+        return engine::shard::child_finish(args, &st);
+    }
+    let mut ev = Evidence::new(args, "exploration");
+    ev.rule(
+        SUB,
+        "one HTTP/2 (TLS, ALPN h2) client connection through a live worker with 1..4 concurrent POST streams (bodies up to 120 KB each way, generated DATA frame sizes and padding) to an HTTP/1.1 or an h2c mock backend. Both accounting peers - the client for response bodies, the h2c backend for request bodies - advertise generated SETTINGS (INITIAL_WINDOW_SIZE 0..2^31-1 biased to 0/1/9/16383/16384/65535, MAX_FRAME_SIZE 16384..2^24-1, MAX_CONCURRENT_STREAMS 1..8, header table size 0/4096/65536), follow a generated WINDOW_UPDATE schedule (1-byte drips, bursts, stream-only, connection-only) before switching to replenish-on-consumption, and may change INITIAL_WINDOW_SIZE / MAX_FRAME_SIZE mid-connection. Ledger on every frame sozu sends: DATA within the stream and connection credit granted (padding included, SETTINGS deltas per RFC 9113 6.9.2), frame length <= advertised MAX_FRAME_SIZE, concurrently open streams toward the backend <= MAX_CONCURRENT_STREAMS, odd strictly increasing stream ids, header blocks decodable. Progress: every stream completes with its exact bodies within the deadline once the schedule has granted enough credit. A failure is re-run on a fresh worker and reported only when it reproduces. Non-trivial: a schedule or window forcing a zero-window wait and a body larger than the initial window.",
+    );
+    ev.assume("kernel and TLS record schedules are shaped, not owned; liveness is checked against a 12 s deadline");
+    ev.assume("MAX_CONCURRENT_STREAMS 0 is not advertised by the backend (every request would wait forever by design)");
+    ev.floor(SUB, "zero_window_wait_and_body_over_initial_window", 0.15);
+    engine::shard::run_sharded(&mut ev, args, SUB, 16, Duration::from_secs(args.tier.pick(900, 5400)));
+    ev.finish()
 }
